@@ -59,7 +59,7 @@ pub fn run_op(op: &str, v: u64, i: usize) -> Vec<u32> {
 pub fn child(ctx: &Ctx) -> ! {
     let op = ctx.arg("op").unwrap_or("xyb").to_string();
     let v = ctx.arg_u64("variant").unwrap_or(0);
-    let nt = (ctx.arg_u64("threads").unwrap_or(8) as usize).clamp(2, 64);
+    let nt = (ctx.arg_u64("threads").unwrap_or(8) as usize).clamp(2, 160);
     let ready = AtomicUsize::new(0);
     let go = AtomicBool::new(false);
     let outs: Vec<Vec<u32>> = std::thread::scope(|s| {
@@ -69,14 +69,39 @@ pub fn child(ctx: &Ctx) -> ! {
                 s.spawn(move || {
                     ready.fetch_add(1, Ordering::AcqRel);
                     while !go.load(Ordering::Acquire) {
-                        std::hint::spin_loop();
+                        if nt > 16 {
+                            std::thread::yield_now(); // more threads than CPUs: do not starve the ones still starting
+                        } else {
+                            std::hint::spin_loop();
+                        }
                     }
-                    run_op(op, v, i)
+                    // the first call, then the same call again while the other threads are still busy: every repetition
+                    // must give the bits of the first
+                    let first = run_op(op, v, i);
+                    if nt >= 64 {
+                        // more threads than CPUs: keep every thread busy for 30 ms, so that all of them are alive at once
+                        // and are preempted at arbitrary points of a call
+                        let t0 = std::time::Instant::now();
+                        while t0.elapsed().as_millis() < 30 {
+                            for _ in 0..16 {
+                                if run_op(op, v, i) != first {
+                                    return vec![0x0D1F_F000];
+                                }
+                            }
+                        }
+                    } else {
+                        for _ in 0..4 {
+                            if run_op(op, v, i) != first {
+                                return vec![0x0D1F_F000];
+                            }
+                        }
+                    }
+                    first
                 })
             })
             .collect();
         while ready.load(Ordering::Acquire) < nt {
-            std::hint::spin_loop();
+            std::thread::yield_now();
         }
         go.store(true, Ordering::Release);
         hs.into_iter().map(|h| h.join().unwrap_or_else(|_| vec![0xBAD_0BAD])).collect()
@@ -109,7 +134,8 @@ pub fn cold(ctx: &Ctx) {
         let mut first_diff: Option<(u64, usize, String)> = None;
         let mut ndiff = 0u64;
         for r in 0..runs {
-            let nt = [16usize, 8, 4, 2, 16, 12][(r % 6) as usize];
+            // (96: more threads alive at once than any small fixed table of per-thread slots would hold)
+            let nt = [16usize, 8, 4, 2, 16, 12, 96, 3][((r / 2) % 8) as usize]; // every thread count with an even and an odd variant
             let variant = ctx.seed * 1000 + r;
             let out = std::process::Command::new(&exe).args(["COLDCHILD", "--op", op, "--variant", &variant.to_string(), "--threads", &nt.to_string()]).output();
             procs += 1;
@@ -151,7 +177,7 @@ pub fn cold(ctx: &Ctx) {
     }
     ev::add_evals(calls);
     ev::add_nontrivial(calls);
-    ev::rule("cold start: fresh child processes in which 2..16 threads make their first call of one conversion at the same moment (spin barrier); each result compared bit for bit with the same call repeated afterwards on the main thread");
+    ev::rule("cold start: fresh child processes in which 2..96 threads make their first call of one conversion at the same moment (spin barrier); each result compared bit for bit with the same call repeated afterwards on the main thread");
 }
 
 pub fn replay(case: &J) -> bool {
